@@ -16,9 +16,11 @@ fn num_j(n: &sonic_rs::Number) -> J {
     else { f64_j(n.as_f64().unwrap()) }
 }
 /// the accessor set of any value implementing the read trait
-fn acc<V: JsonValueTrait>(v: &V, ser: Option<String>) -> J {
+fn acc<V: JsonValueTrait + std::fmt::Display>(v: &V, ser: Option<String>) -> J {
     let t = v.get_type();
     json!({
+        // Display is one more way of writing the value out: it prints the JSON text
+        "disp": bytes_j(format!("{}", v).as_bytes()),
         "type": ty(t),
         "is": {"null": v.is_null(), "bool": v.is_boolean(), "num": v.is_number(), "str": v.is_str(), "arr": v.is_array(), "obj": v.is_object()},
         "bool": match v.as_bool() { Some(b) => json!({"some":true,"b":b}), None => json!({"some":false}) },
